@@ -338,11 +338,11 @@ func runScenario(sc scenario, s stream, bi builtImage, rec *verifkit.Recorder) (
 		_ = rerr
 		e.fs.set(noFsFault())
 		delete(e.fetcher.plan, source)
-		if p == errCrash {
-			// the process died where it was about to delete the cache file; the
-			// next reconcile is the restarted package manager's
+		if e.fs.revive() {
+			// the process died where it was about to remove a cache file (the fs
+			// went dead, nothing after that point had any effect); the next
+			// reconcile is the restarted package manager's
 			rec.Label("crashed-before-cache-delete")
-			p = nil
 		}
 		if p != nil {
 			return fmt.Sprintf("%s: reconcile panicked: %v", where, p), cr
